@@ -56,7 +56,7 @@ for (const s of job.structs) {
     for (const c of s.cases) {
         const out = {};
         // ---- write path
-        try {
+        if (!s.out) try {
             new Uint8Array(wasm.memory.buffer, P, 256).fill(0xAA);
             const obj = {}; s.fields.forEach((f, i) => { obj[f.name] = build(f.ft, c.vals[i]); });
             const inst = S.fromFields(obj);
@@ -82,7 +82,7 @@ for (const s of job.structs) {
             out.read = s.fields.map((f) => canon(f.ft, back[f.name]));
         } catch (e) { out.read_error = String(e).slice(0, 200); }
         // ---- call flattening
-        try {
+        if (!s.out) try {
             st.calls.length = 0; st.allocs.length = 0;
             const obj = {}; s.fields.forEach((f, i) => { obj[f.name] = build(f.ft, c.vals[i]); });
             H["take" + s.name](obj);
